@@ -316,7 +316,7 @@ func (s *session) exec(line string) (res string) {
 		}
 		return "lock absent"
 	}
-	if op == "corrupt" || op == "trunc" || op == "cutout" || op == "swapblk" || op == "rmfile" || op == "cpdir" || op == "rmdir" {
+	if op == "corrupt" || op == "trunc" || op == "cutout" || op == "swapblk" || op == "cpblk" || op == "rmfile" || op == "cpdir" || op == "rmdir" {
 		return s.execFS(op, a)
 	}
 	if s.db == nil {
